@@ -578,7 +578,18 @@ func (b *GRPCBroker) DialWithOptions(id uint32, opts ...grpc.DialOption) (conn *
 	p := b.getClientStream(id)
 	select {
 	case c = <-p.ch:
-		close(p.doneCh)
+		// The entry is used up. Remove it here rather than leaving that to
+		// timeoutWait, which may not have run yet when the ID is used again:
+		// the next Dial would find this entry with doneCh already closed and
+		// panic closing it a second time.
+		b.Lock()
+		if b.clientStreams[id] == p {
+			delete(b.clientStreams, id)
+		}
+		b.Unlock()
+		p.once.Do(func() {
+			close(p.doneCh)
+		})
 	case <-time.After(5 * time.Second):
 		return nil, fmt.Errorf("timeout waiting for connection info")
 	}
@@ -693,6 +704,9 @@ func (m *GRPCBroker) timeoutWait(id uint32, p *gRPCBrokerPending) {
 	m.Lock()
 	defer m.Unlock()
 
-	// Delete the stream so no one else can grab it
-	delete(m.clientStreams, id)
+	// Delete the stream so no one else can grab it - unless the ID has been
+	// used again in the meantime and the entry is no longer ours.
+	if m.clientStreams[id] == p {
+		delete(m.clientStreams, id)
+	}
 }
